@@ -24,7 +24,7 @@ ASSUMPTIONS = ['base calls are only checked where every sensible likelihood agre
                'with identical quality multisets give N; one base dominating in count and in every quality gives that base',
                'the MD tag is parsed tolerantly (missing zero separators accepted): only its meaning is compared with the reference']
 MIN_NONTRIVIAL = {'quick': 150, 'thorough': 30000}
-REQUIRED_MONITORS = ['lib:base_qualities_above_60', 'bases:unanimous_but_less_likely_than_no_call', 'ret:write_pysam_with_callback', 'history:grown_molecules', 'lib:reads_with_indel', 'ret:deduplicate_majority', 'reads:checked', 'reads:gapped', 'reads:reverse', 'bases:decidable_checked', 'bases:conflict_N_expected', 'bases:model_checked', 'bases:near_tie_checked', 'lib:near_tie_planted', 'lib:molecules_over_their_cap', 'lib:molecule_at_contig_start',
+REQUIRED_MONITORS = ['lib:reads_with_an_aligned_block_of_one_base', 'lib:base_qualities_above_60', 'bases:unanimous_but_less_likely_than_no_call', 'ret:write_pysam_with_callback', 'history:grown_molecules', 'lib:reads_with_indel', 'ret:deduplicate_majority', 'reads:checked', 'reads:gapped', 'reads:reverse', 'bases:decidable_checked', 'bases:conflict_N_expected', 'bases:model_checked', 'bases:near_tie_checked', 'lib:near_tie_planted', 'lib:molecules_over_their_cap', 'lib:molecule_at_contig_start',
                      'cli:consensus_reads_checked', 'split:max_N_span']
 SHARD_TIMEOUT = {'quick': 900, 'thorough': 5400}
 
@@ -302,6 +302,17 @@ LOWQ = [0]
 HIGHQ = [False]
 
 
+def edge_gap(indel, i, rid):
+    """in every third library the deletions of read 2 sit next to its first or last aligned base (1M2D39M / 39M2D1M)"""
+    if indel is not None and indel[0] == 'D' and i % 3 == 2:
+        EDGE_GAPS[0] += 1
+        return indel + (('first', 'last')[rid % 2],)
+    return indel
+
+
+EDGE_GAPS = [0]
+
+
 def run_case(case):
     import pysam
     import singlecellmultiomics.molecule as smm
@@ -351,7 +362,7 @@ def run_case(case):
                     fr, tr = F.make_fragment(gen, r, rid, case['i'] + 1, method, cell, name, pos, reverse, umi, r.choice([60, 75, 120, 300, 700]),
                                              r1_len=rl, r2_len=rl, mismatches=r.choice([0, 0, 1, 2]), r2_mismatches=r.choice([0, 0, 1]),
                                              single_end=r.random() < 0.1, qual=qual,
-                                             r2_indel=r.choice([None, None, None, ('I', r.randint(1, 4)), ('D', r.randint(1, 4))]))
+                                             r2_indel=edge_gap(r.choice([None, None, None, ('I', r.randint(1, 4)), ('D', r.randint(1, 4))]), case['i'], rid))
                     if fr is None:
                         continue
                     recs.extend(fr)
@@ -361,6 +372,8 @@ def run_case(case):
         return acc
     plant_conflicts(r, gen, recs, truths, acc)
     acc.count('lib:reads_with_indel', sum(1 for x in recs if 'I' in x['cigar'] or 'D' in x['cigar']))
+    import re as _re
+    acc.count('lib:reads_with_an_aligned_block_of_one_base', sum(1 for x in recs if _re.search(r'^1M\d+D|\d+D1M$', x['cigar'])))
     byid = defaultdict(list)
     for rec in recs:
         byid[F.id_from_name(rec['name'])].append(rec)
